@@ -139,8 +139,16 @@ static int do_write(Endpoint *ep, int dir, uint64_t n, uint64_t wchunk)
 		size_t off = 0;
 		while (off < chunk) {
 			size_t sent = (size_t)-1;
+			Pipe *op = &ep->c->pipe[dir];
+			int rec_before = op->nrecs;
 			int ret = ep_send(ep, buf + off, chunk - off, &sent);
 			ep->wr_calls++;
+			if (ret == 1 && op->nrecs == rec_before + 1 && ep->nrecmap < MAX_REC) {
+				ep->recmap[ep->nrecmap].rec = rec_before;
+				ep->recmap[ep->nrecmap].start = ep->wrote[dir];
+				ep->recmap[ep->nrecmap].len = (uint32_t)sent;
+				ep->nrecmap++;
+			}
 			if (ret != 1) { io_fail(ep, "send ret=%d at byte %llu", ret, (unsigned long long)ep->wrote[dir]); return -1; }
 			if (sent == 0 || sent > chunk - off) {
 				io_fail(ep, "send sentlen=%zu for inlen=%zu", sent, chunk - off);
@@ -155,27 +163,42 @@ static int do_write(Endpoint *ep, int dir, uint64_t n, uint64_t wchunk)
 	return 0;
 }
 
-static int do_read(Endpoint *ep, int dir, uint64_t n, uint64_t rbuf_max)
+/* Read application bytes of direction `dir` until `target` bytes have been
+ * received in total (target 0: until EOF or max_calls).  Every delivered byte
+ * is compared with the position-coded stream the peer's application wrote.
+ * Error returns are tolerated a few times (the caller may be behind a
+ * tampering proxy); the scenarios decide what an error means. */
+static int read_until(Endpoint *ep, int dir, uint64_t target, uint64_t rbuf_max, int max_calls)
 {
 	uint8_t *buf = g_iobuf[ep - g_ep];
-	uint64_t target = ep->got[dir] + n;
-	int eagain_spins = 0;
+	int eagain_spins = 0, calls = 0;
 	if (rbuf_max < 1) rbuf_max = 1;
 	if (rbuf_max > 20000) rbuf_max = 20000;
-	while (ep->got[dir] < target) {
+	while ((target == 0 || ep->got[dir] < target) && (max_calls == 0 || calls < max_calls)) {
 		size_t want = 1 + rng_below(&ep->rbuf, (uint32_t)rbuf_max);
 		size_t got = (size_t)-1;
 		memset(buf, 0xEE, GUARD);
 		memset(buf + GUARD + want, 0xEE, GUARD);
 		int ret = ep_recv(ep, buf + GUARD, want, &got);
 		ep->rd_calls++;
+		calls++;
 		if (ret == -EAGAIN && ep->c->knobs.eagain) {
 			if (++eagain_spins > 200000) { io_fail(ep, "recv EAGAIN forever"); return -1; }
-			sim_sleep(1000000);
+			sim_retry_wait(1000000);
+			calls--;
 			continue;
 		}
-		if (ret == 0) { io_fail(ep, "recv EOF after %llu of %llu bytes", (unsigned long long)ep->got[dir], (unsigned long long)target); ep->eof_seen = 1; return -1; }
-		if (ret != 1) { io_fail(ep, "recv ret=%d after %llu bytes", ret, (unsigned long long)ep->got[dir]); return -1; }
+		if (ret == 0) {
+			ep->eof_seen = 1;
+			if (target) io_fail(ep, "recv EOF after %llu of %llu bytes", (unsigned long long)ep->got[dir], (unsigned long long)target);
+			return -1;
+		}
+		if (ret != 1) {
+			ep->recv_errs++;
+			if (!ep->first_err_at_set) { ep->first_err_at = ep->got[dir]; ep->first_err_at_set = 1; ep->first_err_ret = ret; }
+			if (ep->recv_errs > 6) { io_fail(ep, "recv ret=%d after %llu bytes", ret, (unsigned long long)ep->got[dir]); return -1; }
+			continue;
+		}
 		if (got == 0 || got > want) { io_fail(ep, "len_exceeds: recvlen=%zu outlen=%zu", got, want); return -2; }
 		for (int g = 0; g < GUARD; g++)
 			if (buf[g] != 0xEE || buf[GUARD + want + g] != 0xEE) { io_fail(ep, "len_exceeds: guard bytes overwritten"); return -2; }
@@ -186,24 +209,23 @@ static int do_read(Endpoint *ep, int dir, uint64_t n, uint64_t rbuf_max)
 			}
 		}
 		ep->got[dir] += got;
+		if (ep->recv_errs) ep->got_after_err += got;
 		sim_trace(EV_APP, -(int64_t)got, dir);
 	}
 	return 0;
 }
 
-/* After the handshake failed or the data phase broke: the endpoint keeps
- * reading; any application bytes it is handed are recorded (C10/C11 clause
- * "never afterwards accepts application data"). */
+static int do_read(Endpoint *ep, int dir, uint64_t n, uint64_t rbuf_max)
+{
+	return read_until(ep, dir, ep->got[dir] + n, rbuf_max, 0);
+}
+
+/* After the data phase broke on this side: the endpoint still tries to read. */
 void ep_drain_after_failure(Endpoint *ep, int max_calls)
 {
-	uint8_t *buf = g_iobuf[ep - g_ep];
-	for (int i = 0; i < max_calls; i++) {
-		size_t got = 0;
-		int ret = ep_recv(ep, buf + GUARD, 4096, &got);
-		if (ret == 1 && got > 0) { ep->data_after_fail++; continue; }
-		if (ret == -EAGAIN && ep->c->knobs.eagain) { sim_sleep(1000000); continue; }
-		break;
-	}
+	int dir = ep->side == 0 ? DIR_S2C : DIR_C2S;
+	if (ep->eof_seen || (ep->io_err && strncmp(ep->io_err_what, "send", 4))) return;
+	(void)read_until(ep, dir, 0, 4096, max_calls);
 }
 
 void ep_task(void *arg)
@@ -218,6 +240,7 @@ void ep_task(void *arg)
 	ep->hs_done_step = g_sim.step;
 	ep->hs_done_now = g_sim.now;
 	ep->c->hs_phase[ep->side] = 1;
+	ep->rd_at_done = ep->c->pipe[me_in].rd;
 	sim_trace(EV_APP, 1000 + ep->hs_ret, ep->side);
 	if (ep->hs_ret != 1) {
 		net_close_end(ep->c, ep->side);
@@ -239,7 +262,7 @@ void ep_task(void *arg)
 	}
 	if (broken) {
 		/* clause 2 of C10 / prefix safety of C11: keep reading, nothing may come */
-		if (!ep->eof_seen) ep_drain_after_failure(ep, 8);
+		ep_drain_after_failure(ep, 4);
 		net_close_end(ep->c, ep->side);
 		ep->finished = 1;
 		return;
@@ -254,7 +277,7 @@ void ep_task(void *arg)
 		int ret, spins = 0;
 		for (;;) {
 			ret = ep_recv(ep, buf + GUARD, 1024, &got);
-			if (ret == -EAGAIN && ep->c->knobs.eagain && ++spins < 200000) { sim_sleep(1000000); continue; }
+			if (ret == -EAGAIN && ep->c->knobs.eagain && ++spins < 200000) { sim_retry_wait(1000000); continue; }
 			break;
 		}
 		ep->eof_seen = 1;
